@@ -1094,7 +1094,7 @@ class _Identifiers:
         if illegal_names:
             raise exceptions.NameConflictError(
                 "Reserved words declared in template: %s"
-                % ", ".join(illegal_names)
+                % ", ".join(sorted(illegal_names))
             )
 
     def branch(self, node, **kwargs):
